@@ -30,6 +30,7 @@ var (
 	ErrBadRepetition = fmt.Errorf("%w: bad repetition count", ErrPanic)
 	ErrAnyConversion = fmt.Errorf("%w: error converting any to type", ErrPanic)
 	ErrVarNotSet     = fmt.Errorf("%w: variable has not been set yet", ErrPanic)
+	ErrCallDepth     = fmt.Errorf("%w: function calls nested too deeply", ErrPanic)
 
 	ErrInternal         = errors.New("internal error")
 	ErrUnknownNode      = fmt.Errorf("%w: unknown AST node", ErrInternal)
@@ -67,6 +68,12 @@ func (e PanicError) Error() string {
 func (e PanicError) Unwrap() error {
 	return ErrPanic
 }
+
+// maxCallDepth is the number of user-defined function calls that may be in
+// progress at the same time. A program that recurses deeper panics with
+// [ErrCallDepth]; without the limit the Go runtime aborts the whole process
+// when its stack is exhausted (at about ten times this depth).
+const maxCallDepth = 100_000
 
 // Error is an Evy evaluator error associated with a [lexer.Token] that
 // points to a location in the Evy source code that caused the error.
@@ -147,6 +154,8 @@ type Evaluator struct {
 
 	scope  *scope // Current top of scope stack
 	global *scope // Global scope
+
+	callDepth int // number of user-defined function calls in progress
 }
 
 // Event is a generic data structure that is passed to the
@@ -465,6 +474,13 @@ func (e *Evaluator) evalFunccall(funcCall *parser.FuncCall) (value, error) {
 		}
 		return val, nil
 	}
+	// Unbounded recursion must end in an Evy panic, not in the Go runtime
+	// running out of stack, which cannot be recovered from.
+	if e.callDepth >= maxCallDepth {
+		return nil, newErr(funcCall, fmt.Errorf("%w: more than %d calls in progress", ErrCallDepth, maxCallDepth))
+	}
+	e.callDepth++
+	defer func() { e.callDepth-- }()
 	restoreScope := e.pushFuncScope()
 	defer restoreScope()
 
